@@ -39,5 +39,5 @@ def run(chk, tier):
             ok = words[i] is exp[i]
             chk.ob("R3", "XorShiftRng::from_seed|state word %d (non-zero seed)" % i, ok,
                    "" if ok else describe_diff(words[i], exp[i]), where=body["span"][0])
-    chk.floor("R0", "obligations", len(chk.obs), 11)
+    chk.floor("R0", "obligations", len(chk.obs), 9)  # 12 on the reference tree; vacuity guard
     chk.trusted_base = TRUSTED
